@@ -52,6 +52,10 @@ pub(crate) fn convert(
 
         let ts = Transform::from_bbox(object_bbox);
         transform = transform.pre_concat(ts);
+        if !transform.is_finite() {
+            // An element with an invalid clip path is not rendered.
+            return None;
+        }
     }
 
     // Resolve linked clip path.
